@@ -75,6 +75,8 @@ pub struct MediumHook {
     pub decoded_ok: u64,
     pub thirdparty_panics: u64,
     pub pending_soft: Option<Violation>,
+    /// medium steps by (operation, fault kind)
+    pub by_fault: std::collections::BTreeMap<String, u64>,
 }
 
 impl StepHook for MediumHook {
@@ -83,6 +85,16 @@ impl StepHook for MediumHook {
             return None;
         }
         self.medium_steps += 1;
+        {
+            const KINDS: [&str; 10] = ["none", "truncate", "bit_flip", "drop_byte", "dup_byte", "insert_byte", "replace_byte", "rotate", "short_interrupted_reads", "none"];
+            let key = match op.name.as_str() {
+                "med.twin" => format!("twin.{}", op.n.rem_euclid(9)),
+                "med.tokens" => "tokens".to_string(),
+                "med.bigexp" => "bigexp".to_string(),
+                n => format!("{}.{}", &n[4..], KINDS[op.m.rem_euclid(10) as usize]),
+            };
+            *self.by_fault.entry(key).or_insert(0) += 1;
+        }
         if env.nres > 0 {
             self.decoded_ok += 1;
         }
